@@ -19,6 +19,8 @@ import (
 // of that peer, (c) the start of the next Synchronise. So the following state can never be left
 // while the Synchronise call lasts, whatever time passes:
 //
+//   - the call has not been cancelled (is not winding down) and its body fetcher has issued at
+//     least one request to the peer in question,
 //   - body tasks are queued,
 //   - no body request is in flight (nothing can expire) and no body packet waits in the channel,
 //   - every registered peer is either flagged busy without owning a request, or is idle but known
@@ -216,9 +218,18 @@ func (h *e2eHarness) deadSample(base map[string]ledgerCounts) *deadState {
 	if len(h.d.VerifBusyWithoutRequest()) == 0 {
 		return nil
 	}
+	ds := h.deadClauses(base)
+	if ds == nil {
+		// the legitimate transient state (or a parked garbage peer): seen, not judged
+		h.count("deadlock_oracle_busy_without_request_seen_not_dead")
+	}
+	return ds
+}
+
+func (h *e2eHarness) deadClauses(base map[string]ledgerCounts) *deadState {
 	before := h.led.all()
 	s := h.d.VerifBodySched()
-	if !s.Synchronising || s.Queued == 0 || s.InFlight != 0 || s.ChanLen != 0 || len(s.Peers) == 0 {
+	if !s.Synchronising || s.Cancelled || s.Queued == 0 || s.InFlight != 0 || s.ChanLen != 0 || len(s.Peers) == 0 {
 		return nil
 	}
 	ds := &deadState{Sched: s, Ledger: map[string]ledgerCounts{}}
@@ -236,8 +247,8 @@ func (h *e2eHarness) deadSample(base map[string]ledgerCounts) *deadState {
 			return nil
 		}
 		ds.Ledger[p.ID] = ev
-		if !p.Busy || !h.honestIDs[p.ID] || p.Assignable == 0 {
-			continue
+		if !p.Busy || !h.honestIDs[p.ID] || p.Assignable == 0 || ev.ReqIssued == 0 {
+			continue // (ReqIssued: it was THIS call's body fetcher that flagged the peer busy)
 		}
 		// ground truth: the honest peer has at least one of the queued blocks
 		have := h.haveOf(p.ID)
